@@ -64,7 +64,7 @@ pub fn gen_file(fmt: &str, rng: &mut Rng, n: usize) -> (String, Vec<String>) {
         text.push_str("VV  TRANSFAC MATRIX TABLE, Release 9.2 - licensed - 2005-06-30, (C) Biobase GmbH\nXX\n//\n");
     }
     for k in 0..n {
-        let w = 1 + rng.below(6);
+        let w = if rng.below(12) == 0 { 99 + rng.below(8) } else { 1 + rng.below(6) };   // occasionally 99..106 positions (3-digit row labels)
         let id = format!("MA{:04}.{}", rng.below(10000), 1 + rng.below(9));
         let name = format!("NAME{}", k);
         // counts[i][sym] with sym in A C T G order of Dna::symbols() (index 0..4), N = 0
